@@ -180,7 +180,9 @@ func CmdCheck(args []string) int {
 		}
 	}
 	sort.Strings(work)
-	timeout := 6
+	// quick: 15 s per solver call (most queries answer in well under a second; the margin is for loaded or
+	// slower machines), unknowns are retried alone with 60 s; thorough: 60 s / 120 s
+	timeout := 15
 	if *tier == "thorough" {
 		timeout = 60
 	}
@@ -215,8 +217,12 @@ func CmdCheck(args []string) int {
 			retry = append(retry, o)
 		}
 	}
-	if len(retry) > 0 && len(retry) <= 24 {
-		e.SolveAll(retry, SolveOpts{Timeout: timeout * 2, Scratch: scratch, Workers: 4, Cross: *tier == "thorough"})
+	if len(retry) > 0 && len(retry) <= 64 {
+		rt := timeout * 2
+		if rt < 60 {
+			rt = 60
+		}
+		e.SolveAll(retry, SolveOpts{Timeout: rt, Scratch: scratch, Workers: 4, Cross: *tier == "thorough"})
 	}
 	known := loadKnown(filepath.Join(*verif, "known_findings.jsonl"))
 	knownBy := map[string]KnownFinding{}
